@@ -34,9 +34,9 @@ CONSTANT Cases
 (*        b is empty unless style = "partial"), func |-> stage name, len |-> signal length]              *)
 
 Names    == {"size", "hop", "wnd", "before", "transform", "inverse_transform", "after", "ola",
-             "ola_wnd", "ola_normalize", "ola_zzz", "zzz"}
+             "ola_wnd", "ola_normalize", "ola_lag", "zzz"}
 \* the ola_-prefixed names and what is left of them when the prefix is removed
-OlaStrip == [ola_wnd |-> "wnd", ola_normalize |-> "normalize", ola_zzz |-> "zzz"]
+OlaStrip == [ola_wnd |-> "wnd", ola_normalize |-> "normalize", ola_lag |-> "lag"]
 Known    == {"size", "hop", "wnd", "before", "transform", "inverse_transform", "after", "ola"}
 StageNames == <<"before", "transform", "inverse_transform", "after">>
 
@@ -98,7 +98,7 @@ InScope(c) ==
   LET kw == DefMerged(c) IN
   /\ {"before", "transform", "inverse_transform", "after", "ola"} \subseteq DOMAIN kw
   /\ (c.style # "partial" => c.b = Empty)
-  /\ (DefError(kw) = "none" /\ kw["ola"] = "list" => "ola_zzz" \notin DOMAIN kw)
+  /\ (DefError(kw) = "none" /\ kw["ola"] = "list" => "ola_lag" \notin DOMAIN kw)
 
 DefHop(kw)     == EffHop(kw["size"], Get(kw, "hop", 0))
 DefBlocksOf(c, kw) == DefBlocks(c.len, kw["size"], DefHop(kw), LAMBDA i : Signal(c)[i], LZero(NS(c)))
